@@ -20,6 +20,10 @@ type Term struct {
 	Name string
 	Args []*Term
 	Site token.Pos
+	// src/fr: for an opaque call term, the call and the frame it was evaluated in
+	// (field projections look into the callee, see Terms.field)
+	src *ssa.Call
+	fr  *Frame
 }
 
 func (t *Term) String() string      { return t.render(true) }
@@ -146,7 +150,7 @@ func (ts *Terms) of(v ssa.Value, fr *Frame, depth int) *Term {
 		return mk("const", "⟲")
 	}
 	ts.busy[k] = true
-	t := ts.compute(v, fr, depth)
+	t := canon(ts.compute(v, fr, depth))
 	delete(ts.busy, k)
 	ts.memo[k] = t
 	return t
@@ -270,9 +274,9 @@ func (ts *Terms) compute(v ssa.Value, fr *Frame, depth int) *Term {
 		}
 		return mk("index", "slice", ts.of(x.X, fr, depth+1), ts.of(x.Low, fr, depth+1), ts.of(x.High, fr, depth+1))
 	case *ssa.FieldAddr:
-		return simplifyField(ts.of(x.X, fr, depth+1), fieldNameShort(x.X.Type(), x.Field))
+		return ts.field(ts.of(x.X, fr, depth+1), fieldNameShort(x.X.Type(), x.Field))
 	case *ssa.Field:
-		return simplifyField(ts.of(x.X, fr, depth+1), fieldNameShort(x.X.Type(), x.Field))
+		return ts.field(ts.of(x.X, fr, depth+1), fieldNameShort(x.X.Type(), x.Field))
 	case *ssa.IndexAddr:
 		return mk("index", "", ts.of(x.X, fr, depth+1), ts.of(x.Index, fr, depth+1))
 	case *ssa.Index:
@@ -294,6 +298,9 @@ func (ts *Terms) compute(v ssa.Value, fr *Frame, depth int) *Term {
 		}
 		return phiOf(m)
 	case *ssa.BinOp:
+		if t := ts.lenOfString(x, fr, depth); t != nil {
+			return t
+		}
 		return mk("bin", x.Op.String(), ts.of(x.X, fr, depth+1), ts.of(x.Y, fr, depth+1))
 	case *ssa.UnOp:
 		if x.Op == token.MUL {
@@ -380,6 +387,52 @@ func simplifyField(x *Term, name string) *Term {
 	return mk("field", name, x)
 }
 
+// field projects a field out of x. When x is the opaque result of an unexported
+// irismod helper that builds the record it returns (`req, err := k.buildRequest(…)`),
+// the field is read off the record assembled on the helper's non-failure returns,
+// with its parameters bound to the call's arguments: req.Height is then the
+// expression the helper stored, whatever else the helper reads or does.
+func (ts *Terms) field(x *Term, name string) *Term {
+	c, idx := x, 0
+	if x.Op == "extract" && len(x.Args) == 1 {
+		c = x.Args[0]
+		fmt.Sscan(x.Name, &idx)
+	}
+	if c.Op != "call" || c.src == nil {
+		return simplifyField(x, name)
+	}
+	f := c.src.Common().StaticCallee()
+	if f == nil || f.Blocks == nil || !isIrismodFunc(f) || f.Parent() != nil || frameDepth(c.fr) >= 12 || onChain(c.fr, f) {
+		return simplifyField(x, name)
+	}
+	if n := f.Name(); n == "" || !(n[0] >= 'a' && n[0] <= 'z') {
+		return simplifyField(x, name)
+	}
+	nfr := &Frame{Fn: f, Parent: c.fr, Call: c.src, Depth: frameDepth(c.fr) + 1}
+	m := map[string]*Term{}
+	for _, r := range returnsOf(f) {
+		if isFailureReturn(r) {
+			continue
+		}
+		if idx >= len(r.Results) {
+			return simplifyField(x, name)
+		}
+		rt := ts.Of(r.Results[idx], nfr)
+		if rt.Op != "struct" {
+			return simplifyField(x, name)
+		}
+		p := simplifyField(rt, name)
+		if p.Op == "field" && len(p.Args) == 1 && p.Args[0] == rt {
+			return simplifyField(x, name)
+		}
+		m[p.String()] = p
+	}
+	if len(m) == 0 || len(m) > 4 {
+		return simplifyField(x, name)
+	}
+	return phiOf(m)
+}
+
 func (ts *Terms) extract(t *Term, i int) *Term {
 	if t.Op == "tuple" && i < len(t.Args) {
 		return t.Args[i]
@@ -405,7 +458,7 @@ func (ts *Terms) load(addr ssa.Value, fr *Frame, depth int) *Term {
 		if base, ok := a.X.(*ssa.Alloc); ok {
 			return ts.loadAlloc(base, a, fr, depth)
 		}
-		return simplifyField(ts.loadBase(a.X, fr, depth+1), fieldNameShort(a.X.Type(), a.Field))
+		return ts.field(ts.loadBase(a.X, fr, depth+1), fieldNameShort(a.X.Type(), a.Field))
 	case *ssa.FreeVar:
 		// captured variable: the binding is the address in the creator frame
 		if fr != nil && fr.MC != nil {
@@ -490,13 +543,13 @@ func (ts *Terms) loadAlloc(a *ssa.Alloc, fld *ssa.FieldAddr, fr *Frame, depth in
 			}
 			wm := map[string]*Term{}
 			for _, w := range whole {
-				t := simplifyField(w, name)
+				t := ts.field(w, name)
 				wm[t.String()] = t
 			}
 			return phiOf(wm)
 		}
 		for _, w := range whole {
-			t := simplifyField(w, name)
+			t := ts.field(w, name)
 			m[t.String()] = t
 		}
 		return phiOf(m)
@@ -675,7 +728,7 @@ func (ts *Terms) call(x *ssa.Call, fr *Frame, depth int) *Term {
 			return t
 		}
 	}
-	t := &Term{Op: "call", Name: callName(x), Site: x.Pos()}
+	t := &Term{Op: "call", Name: callName(x), Site: x.Pos(), src: x, fr: fr}
 	if t.Name == "" && !c.IsInvoke() {
 		// call of a function value: name it by the value's origin
 		t.Name = "call[" + ts.of(c.Value, fr, depth+1).LooseString() + "]"
@@ -715,9 +768,22 @@ func (ts *Terms) helperInline(x *ssa.Call, fr *Frame, idx int) *Term {
 	}
 	nfr := &Frame{Fn: f, Parent: fr, Call: x, Depth: frameDepth(fr) + 1}
 	m := map[string]*Term{}
+	// (value, ok bool): the `return zero, false` exits are failure returns too when the
+	// caller branches on the flag
+	okFlag := -1
+	if n := res.Len(); n >= 2 && idx != n-1 {
+		if b, isB := res.At(n-1).Type().Underlying().(*types.Basic); isB && b.Kind() == types.Bool && flagIsTested(x, n-1) {
+			okFlag = n - 1
+		}
+	}
 	for _, r := range returnsOf(f) {
 		if isFailureReturn(r) || idx >= len(r.Results) {
 			continue
+		}
+		if okFlag >= 0 && okFlag < len(r.Results) {
+			if c, isC := r.Results[okFlag].(*ssa.Const); isC && c.Value != nil && c.Value.Kind() == constant.Bool && !constant.BoolVal(c.Value) {
+				continue
+			}
 		}
 		t := ts.Of(r.Results[idx], nfr)
 		m[t.String()] = t
@@ -726,6 +792,34 @@ func (ts *Terms) helperInline(x *ssa.Call, fr *Frame, idx int) *Term {
 		return nil
 	}
 	return phiOf(m)
+}
+
+// flagIsTested: result #i of the call is the condition of a branch in the caller.
+func flagIsTested(x *ssa.Call, i int) bool {
+	if x.Referrers() == nil {
+		return false
+	}
+	for _, ref := range *x.Referrers() {
+		ex, ok := ref.(*ssa.Extract)
+		if !ok || ex.Index != i || ex.Referrers() == nil {
+			continue
+		}
+		for _, r2 := range *ex.Referrers() {
+			switch y := r2.(type) {
+			case *ssa.If:
+				return true
+			case *ssa.UnOp:
+				if y.Op == token.NOT && y.Referrers() != nil {
+					for _, r3 := range *y.Referrers() {
+						if _, isIf := r3.(*ssa.If); isIf {
+							return true
+						}
+					}
+				}
+			}
+		}
+	}
+	return false
 }
 
 // Inlined evaluates the result #idx of a call to an irismod function by
@@ -866,4 +960,113 @@ func reachingStores(whole, field []*ssa.Store, at ssa.Instruction) ([]*ssa.Store
 		}
 	}
 	return w2, f2
+}
+
+// ---------------------------------------------------------------- canonical forms
+//
+// canon rewrites the top node of a term whose children are already canonical
+// into one spelling per meaning, for the SDK/stdlib equivalences a maintainer
+// uses interchangeably:
+//   ctx.BlockHeader().Time / .Height      → ctx.BlockTime() / ctx.BlockHeight()
+//   a.Sub(b).IsNegative()                 → a.LT(b)              (Int, Uint, LegacyDec)
+//   a.GT(zero) / zero.LT(a)               → a.IsPositive()
+//   a.LT(zero) / zero.GT(a)               → a.IsNegative()
+//   a.Equal(zero)                         → a.IsZero()
+//   NewInt(0|1), LegacyNewDec(0|1)        → ZeroInt()/OneInt()/LegacyZeroDec()/LegacyOneDec()
+//   a.Mul(NewInt(c)) / a.MulRaw(c)        → a.MulRaw(c)   (likewise Add/Sub/Quo Raw)
+// (len(s) ⋈ 0 for a string s is rewritten where the type is known, in compute.)
+var numTypes = map[string]bool{"math.Int": true, "math.Uint": true, "math.LegacyDec": true}
+
+func splitMethod(name string) (typ, m string) {
+	i := strings.LastIndex(name, ".")
+	if i < 0 {
+		return "", name
+	}
+	return name[:i], name[i+1:]
+}
+
+func isZeroTerm(t *Term) bool {
+	if t.Op != "call" || len(t.Args) != 0 {
+		return false
+	}
+	switch t.Name {
+	case "math.ZeroInt", "math.LegacyZeroDec", "math.ZeroUint":
+		return true
+	}
+	return false
+}
+
+func canon(t *Term) *Term {
+	if t == nil {
+		return t
+	}
+	switch t.Op {
+	case "field":
+		if len(t.Args) == 1 && t.Args[0].Op == "call" && t.Args[0].Name == "sdk.Context.BlockHeader" {
+			switch t.Name {
+			case "Time":
+				return &Term{Op: "call", Name: "sdk.Context.BlockTime", Site: t.Args[0].Site}
+			case "Height":
+				return &Term{Op: "call", Name: "sdk.Context.BlockHeight", Site: t.Args[0].Site}
+			}
+		}
+	case "call":
+		typ, m := splitMethod(t.Name)
+		switch t.Name {
+		case "math.NewInt", "math.LegacyNewDec", "math.NewUint":
+			if len(t.Args) == 1 && t.Args[0].Op == "const" {
+				z := map[string][2]string{"math.NewInt": {"math.ZeroInt", "math.OneInt"}, "math.LegacyNewDec": {"math.LegacyZeroDec", "math.LegacyOneDec"}, "math.NewUint": {"math.ZeroUint", "math.OneUint"}}[t.Name]
+				switch t.Args[0].Name {
+				case "0":
+					return &Term{Op: "call", Name: z[0], Site: t.Site}
+				case "1":
+					return &Term{Op: "call", Name: z[1], Site: t.Site}
+				}
+			}
+		}
+		if !numTypes[typ] {
+			return t
+		}
+		switch {
+		case m == "IsNegative" && len(t.Args) == 1 && t.Args[0].Op == "call" && t.Args[0].Name == typ+".Sub" && len(t.Args[0].Args) == 2:
+			return &Term{Op: "call", Name: typ + ".LT", Args: t.Args[0].Args, Site: t.Site}
+		case (m == "GT" || m == "LT" || m == "Equal") && len(t.Args) == 2 && isZeroTerm(t.Args[1]):
+			n := map[string]string{"GT": "IsPositive", "LT": "IsNegative", "Equal": "IsZero"}[m]
+			return &Term{Op: "call", Name: typ + "." + n, Args: t.Args[:1], Site: t.Site}
+		case (m == "GT" || m == "LT" || m == "Equal") && len(t.Args) == 2 && isZeroTerm(t.Args[0]):
+			n := map[string]string{"LT": "IsPositive", "GT": "IsNegative", "Equal": "IsZero"}[m]
+			return &Term{Op: "call", Name: typ + "." + n, Args: t.Args[1:], Site: t.Site}
+		case (m == "Mul" || m == "Add" || m == "Sub" || m == "Quo") && typ == "math.Int" && len(t.Args) == 2 && t.Args[1].Op == "call" && t.Args[1].Name == "math.NewInt" && len(t.Args[1].Args) == 1:
+			return &Term{Op: "call", Name: typ + "." + m + "Raw", Args: []*Term{t.Args[0], t.Args[1].Args[0]}, Site: t.Site}
+		}
+	}
+	return t
+}
+
+// lenOfString: len(s) ⋈ c for a string s and c ∈ {0,1} means s == "" or s != "".
+func (ts *Terms) lenOfString(x *ssa.BinOp, fr *Frame, depth int) *Term {
+	c, ok := x.X.(*ssa.Call)
+	k, ok2 := x.Y.(*ssa.Const)
+	if !ok || !ok2 || k.Value == nil || k.Value.Kind() != constant.Int {
+		return nil
+	}
+	b, isB := c.Common().Value.(*ssa.Builtin)
+	if !isB || b.Name() != "len" || len(c.Common().Args) != 1 {
+		return nil
+	}
+	bt, isBasic := c.Common().Args[0].Type().Underlying().(*types.Basic)
+	if !isBasic || bt.Info()&types.IsString == 0 {
+		return nil
+	}
+	n, _ := constant.Int64Val(k.Value)
+	var op string
+	switch {
+	case n == 0 && (x.Op == token.EQL || x.Op == token.LEQ), n == 1 && x.Op == token.LSS:
+		op = "=="
+	case n == 0 && (x.Op == token.NEQ || x.Op == token.GTR), n == 1 && x.Op == token.GEQ:
+		op = "!="
+	default:
+		return nil
+	}
+	return mk("bin", op, ts.of(c.Common().Args[0], fr, depth+1), mk("const", `""`))
 }
